@@ -973,6 +973,22 @@ impl TCheck {
                     return None;
                 };
                 out.bump("probe.accepted");
+                for f in &s.faults {
+                    // which fault kinds produce files the reader accepts (a kind stuck at zero is a blind spot)
+                    out.bump(match fault_name(f) {
+                        "fired.disk-short" => "accepted.disk-short",
+                        "fired.disk-flip" => "accepted.disk-flip",
+                        "fired.disk-zero" => "accepted.disk-zero",
+                        "fired.disk-torn" => "accepted.disk-torn",
+                        "fired.disk-lost" => "accepted.disk-lost",
+                        "fired.disk-dup" => "accepted.disk-dup",
+                        "fired.disk-drop" => "accepted.disk-drop",
+                        "fired.disk-swap" => "accepted.disk-swap",
+                        "fired.disk-field" => "accepted.disk-field",
+                        "fired.disk-utf8" => "accepted.disk-utf8",
+                        _ => "accepted.disk-random",
+                    });
+                }
                 let ctx = format!("survivor of {} format faults {:?}", if text { "text" } else { "binary" }, s.faults);
                 // the survivor continues through the world; nothing may unwind
                 let steps: Vec<(&str, Box<dyn FnOnce() + Send + '_>)> = vec![
